@@ -372,8 +372,13 @@ def rule_r2(prog, res):
     # the if-chain on val
     chain = None
     for n in walk_no_defs(pm.node):
-        if isinstance(n, ast.If) and unparse(n.test).replace(' ', '') in (
-                'len(val)==0', 'notval'):
+        if not isinstance(n, ast.If):
+            continue
+        tests = [n.test]
+        if isinstance(n.test, ast.BoolOp) and isinstance(n.test.op, ast.Or):
+            tests = list(n.test.values)     # merged with the aux branch
+        if any(unparse(t_).replace(' ', '') in ('len(val)==0', 'notval')
+               for t_ in tests):
             chain = n
     if chain is None:
         raise AnalysisError('Interface.process_method', 'no branch on val')
